@@ -261,3 +261,29 @@ def u2f_body(p, name):
     if not tr:
         return None
     return inline.inlined(p, p.async_body(p.method(AUTH, name, trait=tr[0]["path"])), keep=(keep_named,))
+
+
+def record_fields(term):
+    """members of a record-valued term: an aggregate, possibly with member updates applied (`with`)"""
+    base, ups = term, {}
+    while isinstance(base, tuple) and base and base[0] == "with":
+        for pth, v in base[2]:
+            if len(pth) == 1 and pth[0] not in ups:
+                ups[pth[0]] = v
+        base = base[1]
+    if not (isinstance(base, tuple) and len(base) == 4 and base[0] == "agg"):
+        return None
+    d = dict(base[3])
+    d.update(ups)
+    return d
+
+
+def saved_passkey(p, mc, T, N):
+    """(fields of the Passkey record handed to save_credential in make_credential, call block) — the record as it is
+    when it is stored, whether it was written as one literal or built up by member assignments"""
+    from . import names
+    sv = names.calls_to(mc, "CredentialStore::save_credential")
+    if len(sv) != 1:
+        return None, None
+    bb, t = sv[0]
+    return record_fields(N.norm(T.operand(t["args"][1], bb, "t"))), bb
